@@ -556,6 +556,13 @@ theorem fields_spec (u : Bytes) (h : u.length = 16 ∧ u.Valid) :
     List.getD_cons_succ, List.getD_cons_zero, Spec.Uuid.bits, be, beNat, List.foldl, List.take, List.drop, Nat.reducePow, Nat.reduceAdd, Nat.reduceSub]
   omega
 
+theorem fields_v2_spec (u : Bytes) (h : u.length = 16 ∧ u.Valid) :
+    clockSeqV2 u = Spec.Uuid.clockSeqV2 (beNat u) ∧ timeV2 u = Spec.Uuid.tsV2 (beNat u) := by
+  obtain ⟨b0,b1,b2,b3,b4,b5,b6,b7,b8,b9,b10,b11,b12,b13,b14,b15, rfl, h0,h1,h2,h3,h4,h5,h6,h7,h8,h9,h10,h11,h12,h13,h14,h15⟩ := len16 u h
+  simp only [clockSeqV2, timeV2, Spec.Uuid.clockSeqV2, Spec.Uuid.tsV2,
+    List.getD_cons_succ, List.getD_cons_zero, Spec.Uuid.bits, be, beNat, List.foldl, List.take, List.drop, Nat.reducePow, Nat.reduceAdd, Nat.reduceSub]
+  omega
+
 theorem doe_decomp (doe : Nat) (h : doe < 146096) :
     ∃ c q s, c ≤ 3 ∧ q ≤ 24 ∧ s ≤ 1460 ∧ 1461*q + s ≤ 36523 ∧ doe = 36524*c + 1461*q + s := by
   refine ⟨doe / 36524, (doe % 36524)/1461, (doe%36524)%1461, ?_, ?_, ?_, ?_, ?_⟩ <;> omega
